@@ -10,7 +10,7 @@ import (
 )
 
 type c19Op struct {
-	kind string // add remove settype addattr addrel
+	kind string // add addown remove settype addattr addrel
 	res  resSpecT
 	id   string
 	typ  typeSpec
@@ -29,6 +29,8 @@ func (o c19Op) gallina() string {
 	switch o.kind {
 	case "add":
 		return fmt.Sprintf("(CAdd %s %s)", gNewRes(o.res.t, o.res.wrapped), gOps(o.res.ops))
+	case "addown":
+		return "(CAddOwn " + gOps(o.res.ops) + ")"
 	case "remove":
 		return "(CRemove " + gStr(o.id) + ")"
 	case "settype":
@@ -48,6 +50,12 @@ func (o c19Op) String() string {
 			d = append(d, fmt.Sprintf("%s=%s", s.key, descValue(s.val)))
 		}
 		return fmt.Sprintf("Add(%s%v wrapped=%v {%s})", o.res.t.name, o.res.t.fieldNames(), o.res.wrapped, strings.Join(d, " "))
+	case "addown":
+		var d []string
+		for _, s := range o.res.ops {
+			d = append(d, fmt.Sprintf("%s=%s", s.key, descValue(s.val)))
+		}
+		return fmt.Sprintf("Add(soft resource bound to the collection's Type {%s})", strings.Join(d, " "))
 	case "remove":
 		return fmt.Sprintf("Remove(%q)", o.id)
 	case "settype":
@@ -63,6 +71,7 @@ func (o c19Op) String() string {
 type refItem struct {
 	id   string
 	vals map[string]any
+	held map[string]string // field -> definition under which the element first held a value for it
 }
 
 func c19History(c *ctx, start typeSpec, ops []c19Op, how string) {
@@ -81,10 +90,22 @@ func c19History(c *ctx, start typeSpec, ops []c19Op, how string) {
 		col.SetType(&typ)
 		var ref []refItem
 		var lastSrc jsonapi.Resource
+		clashed := false
 		for i, o := range ops {
 			switch o.kind {
-			case "add":
-				src := buildRes(o.res.t, o.res.wrapped, o.res.ops)
+			case "add", "addown":
+				var src jsonapi.Resource
+				if o.kind == "add" {
+					src = buildRes(o.res.t, o.res.wrapped, o.res.ops)
+				} else {
+					// a soft resource that points at the very Type value the collection uses
+					sr := &jsonapi.SoftResource{}
+					sr.SetType(col.Type)
+					for _, s := range o.res.ops {
+						sr.Set(s.key, s.val)
+					}
+					src = sr
+				}
 				col.Add(src)
 				lastSrc = src
 				it := refItem{id: src.Get("id").(string), vals: map[string]any{}}
@@ -155,6 +176,65 @@ func c19History(c *ctx, start typeSpec, ops []c19Op, how string) {
 					break
 				}
 			}
+			// a field the element had no value for when it was stored (or that
+			// left the type since: every element is read after every step, and
+			// reading drops the values of fields that are gone) reads as zero
+			for f := range ct.Attrs {
+				if _, isR := ct.Rels[f]; isR {
+					clashed = true // one name for an attribute and a relationship: from here on stored values may be of either
+				}
+			}
+			sig := map[string]string{}
+			for f, ca := range ct.Attrs {
+				sig[f] = fmt.Sprintf("attr %d %v", ca.Type, ca.Nullable)
+			}
+			for f, cr := range ct.Rels {
+				if _, isA := ct.Attrs[f]; !isA {
+					sig[f] = fmt.Sprintf("rel %v", cr.ToOne)
+				}
+			}
+			for j := range ref {
+				if clashed {
+					break
+				}
+				if ref[j].held == nil {
+					ref[j].held = map[string]string{}
+				}
+				for f := range ref[j].vals {
+					if _, ok := sig[f]; !ok {
+						delete(ref[j].vals, f)
+					}
+				}
+				for f := range ref[j].held {
+					if _, ok := sig[f]; !ok {
+						delete(ref[j].held, f) // the field left the type: reading dropped its value
+					}
+				}
+				r := col.At(j)
+				for f, s := range sig {
+					if _, ok := ref[j].held[f]; !ok {
+						ref[j].held[f] = s
+					}
+					if _, had := ref[j].vals[f]; had || key != "" {
+						continue
+					}
+					var want any
+					if ca, isA := ct.Attrs[f]; isA {
+						want = jsonapi.GetZeroValue(ca.Type, ca.Nullable)
+					} else if ct.Rels[f].ToOne {
+						want = ""
+					} else {
+						want = []string{}
+					}
+					if !sameValue(r.Get(f), want) {
+						if ref[j].held[f] != s {
+							key, detail = "stale-value-after-kind-change", fmt.Sprintf("step %d %s: element %d reads %s for %s (now %s; it was filled when the field was %s)", i, o, j, descValue(r.Get(f)), f, s, ref[j].held[f])
+						} else {
+							key, detail = "absent-field-not-zero", fmt.Sprintf("step %d %s: element %d reads %s for %s it never had a value for", i, o, j, descValue(r.Get(f)), f)
+						}
+					}
+				}
+			}
 			for _, pi := range probes {
 				r := col.At(pi)
 				isNil := r == nil || reflect.ValueOf(r).IsNil()
@@ -163,7 +243,7 @@ func c19History(c *ctx, start typeSpec, ops []c19Op, how string) {
 				}
 			}
 			// the snapshot does not follow later Set calls on the resource that was added
-			if o.kind == "add" && lastSrc != nil && key == "" {
+			if (o.kind == "add" || o.kind == "addown") && lastSrc != nil && key == "" {
 				stored := col.At(col.Len() - 1)
 				before := map[string]any{}
 				for _, f := range want {
@@ -248,7 +328,11 @@ func c19RandOp(r *rng) c19Op {
 		rs := resSpecT{t: t, wrapped: r.bool(), ops: c01Ops(r, t, false)}
 		rs.ops[0] = setOp{"id", pick(r, []string{"1", "2", "3", "1", ""})}
 		return c19Op{kind: "add", res: rs}
-	case 4, 5:
+	case 4:
+		rs := resSpecT{t: base, ops: c01Ops(r, base, false)}
+		rs.ops[0] = setOp{"id", pick(r, []string{"1", "2", "3", "1", ""})}
+		return c19Op{kind: "addown", res: rs}
+	case 5:
 		return c19Op{kind: "remove", id: pick(r, []string{"1", "2", "3", "zz", ""})}
 	case 6:
 		return c19Op{kind: "settype", typ: pick(r, []typeSpec{base, narrow, wide, {name: "other"}})}
@@ -271,6 +355,13 @@ func runC19(c *ctx) {
 		{kind: "settype", typ: typeSpec{name: "t", fields: []fieldSpec{{name: "a", code: 1}}}},
 		{kind: "addattr", attr: jsonapi.Attr{Name: "late", Type: 2}},
 	}, "corpus F19a")
+	// corpus: a field that keeps its name but changes definition (recorded finding)
+	c19History(c, base, []c19Op{
+		{kind: "add", res: resSpecT{t: base, ops: []setOp{{"id", "1"}, {"a", "x"}}}},
+		{kind: "settype", typ: typeSpec{name: "other"}},
+		{kind: "addattr", attr: jsonapi.Attr{Name: "one", Type: 4}},
+		{kind: "settype", typ: base},
+	}, "corpus kind change")
 	for i := 0; i < n; i++ {
 		var ops []c19Op
 		for k := c.r.intn(15); k > 0; k-- {
